@@ -13,44 +13,30 @@ set_option linter.unusedVariables false
 
 /-! The proof scripts below serve both shapes of the source: `config_max_line_length` /
 `adapt_wrap_max_lines_argument` with plain `+ *` (as pinned) and with `saturating_add` / `saturating_mul`
-(notes/fix-wrap-max-lines-overflow.diff). Where the two need different steps the script is a
-`first | <pinned> | <saturating>`; every statement is one that holds of both. `U` below = `usizeMax`. -/
+(notes/fix-wrap-max-lines-overflow.diff); every statement is one that holds of both. `U` below = `usizeMax`. -/
 
 /-- The generated function, arm by arm, for all values: the value of the last arm is `max mll F` with
 `min E U ≤ F ≤ E`, `E = n panes + max (a quarter of n panes) (one pane)` — `F = E` with plain arithmetic,
-`F = min E U` with saturating arithmetic. -/
+`F = min E U` with saturating arithmetic (`F` is read off the generated term). -/
 theorem cml_spec (n mll w : Nat) :
     ∃ F, min (w / 2 * n + max (w / 2 * n / 4) (w / 2)) usizeMax ≤ F ∧ F ≤ w / 2 * n + max (w / 2 * n / 4) (w / 2) ∧
       Generated.configMaxLineLength n mll w =
         if n = 1 then mll
         else if n = 0 ∨ mll = 0 then 0
         else max mll F := by
-  unfold Generated.configMaxLineLength
-  first
-    | refine ⟨w / 2 * n + max (w / 2 * n / 4) (w / 2), ?_, ?_, ?_⟩
-      · omega
-      · omega
-      · by_cases h1 : n = 1
-        · simp [h1]
-        · by_cases h0 : n = 0
-          · simp [h0]
-          · by_cases hm : mll = 0
-            · simp [h1, h0, hm]
-            · simp only [h1, h0, hm, if_false, false_or]
-              have : w / 2 * n * 250 / 1000 = w / 2 * n / 4 := by omega
-              rw [this]
-    | refine ⟨min (w / 2 * n + max (w / 2 * n / 4) (w / 2)) usizeMax, ?_, ?_, ?_⟩
-      · omega
-      · omega
-      · by_cases h1 : n = 1
-        · simp [h1]
-        · by_cases h0 : n = 0
-          · simp [h0]
-          · by_cases hm : mll = 0
-            · simp [h1, h0, hm]
-            · simp only [h1, h0, hm, if_false, false_or, satAdd, satMul]
-              congr 1
-              omega
+  by_cases h1 : n = 1
+  · exact ⟨_, Nat.min_le_left _ _, Nat.le_refl _, by simp [Generated.configMaxLineLength, h1]⟩
+  · by_cases h0 : n = 0
+    · exact ⟨_, Nat.min_le_left _ _, Nat.le_refl _, by simp [Generated.configMaxLineLength, h0]⟩
+    · by_cases hm : mll = 0
+      · exact ⟨_, Nat.min_le_left _ _, Nat.le_refl _, by simp [Generated.configMaxLineLength, h1, h0, hm]⟩
+      · unfold Generated.configMaxLineLength
+        simp only [h1, h0, hm, if_false, false_or]
+        refine ⟨_, ?_, ?_, rfl⟩
+        · try simp only [satAdd, satMul, satSub]
+          omega
+        · try simp only [satAdd, satMul, satSub]
+          omega
 
 /-- Exact value wherever the formula stays within `usize` (both shapes). -/
 theorem cml_exact (n mll w : Nat) (hU : w / 2 * n + max (w / 2 * n / 4) (w / 2) ≤ usizeMax) :
